@@ -110,7 +110,17 @@ def scope_slices(work):
     br.sub("L20:c ? a : b on class objects->select function", r"identifier\.get_type\(\)\.is_location\(\)\s*\?\s*type_t::create_primitive\(Constants::BOOL, position\)\s*:\s*identifier\.get_type\(\)",
            "verif_select_type(identifier.get_type().is_location(), type_t::create_primitive(Constants::BOOL, position), identifier.get_type())")
     br.text = "void ExpressionBuilder::expr_dot_process_var(verif_name id, expression_t& expr)\n{" + br.text + "}\n"
+    # expr_dot: the is_process() branch (process-qualified names: P.x with P's arguments substituted)
+    s, e = eb.find_unique(r"\} else if \(type\.is_process\(\)\) \{", ed.start, ed.end, what="expr_dot: process branch")
+    be = eb.match_brace(e - 1)
+    bp = X.Slice("ExpressionBuilder::expr_dot: is_process() branch", eb, e, be - 1)
+    bp.sub("L15:auto* x = static_cast<T*>", r"auto\* process = static_cast<instance_t\*>", "instance_t* process = static_cast<instance_t*>", required=True)
+    bp.sub("L15:auto i = find_index_of", r"auto i = type\.find_index_of\(id\);", "type_t::verif_optidx i = type.find_index_of(id);", required=True)
+    bp.sub("glue:name + \"::\"->qualifier identity", r"([\w\.\->]+get_name\(\)) \+ \"::\"", r"verif_qual(\1)", required=True)
+    X.lower_range_for_map(bp, "symbol_t", "expression_t", required="auto& [" in bp.text or "auto [" in bp.text)
+    bp.text = "void ExpressionBuilder::expr_dot_process(verif_name id, expression_t& expr, type_t type)\n{" + bp.text + "}\n"
     fl.append(br)
+    fl.append(bp)
     write(work, "scope_funcs.inc", "\n".join(s.text for s in fl) + "\n")
     write(work, "kinds.h", T.kinds_header())
     return slices + [fc, tf] + fl
@@ -164,6 +174,21 @@ def build(tier, work, builder):
                           functions=[f"ExpressionBuilder::expr_{nm}_begin", f"ExpressionBuilder::expr_{nm}_end", "push_frame", "popFrame", "resolve"], bound_note="frame stack depth <= 4"))
     jobs.append(F.Job("c07_scope_dot_process_var", "h_c07_scope_dot_process_var", [sobj, shobj], timeout=300, unwind=10,
                       functions=["ExpressionBuilder::expr_dot (PROCESS_VAR branch)", "push_frame", "popFrame", "resolve", "expr_false"], bound_note="frame stack depth <= 4"))
+    jobs.append(F.Job("c07_scope_dot_process", "h_c07_scope_dot_process", [sobj, shobj], timeout=300, unwind=14,
+                      functions=["ExpressionBuilder::expr_dot (is_process() branch)"], bound_note="process types of <= 3 members, <= 3 bound parameters",
+                      note="type_t::find_index_of / get_sub / rename / subst by ghost (a derived type remembers how it was derived)"))
+    # the bindings substituted by expr_dot are the instance's mapping: its completeness (new bindings keyed by the instantiated
+    # instance's own parameters, inherited bindings kept) is the obligation of Document::add_instance - the C08 job, run here too
+    from checks import C08
+    w8 = os.path.join(work, "c08"); os.makedirs(w8, exist_ok=True)
+    b8 = C08.build(tier, w8, builder)
+    inst = [j for j in b8["jobs"] if j.name == "c08_instance"]
+    if len(inst) != 1:
+        raise X.ExtractionBroken("C07: the add_instance job of C08 is missing")
+    inst[0].name = "c07_instance_mapping"
+    inst[0].note = "Document::add_instance (contracts/C08): the mapping P.x is substituted with is exactly the inherited bindings plus the new ones"
+    jobs.append(inst[0])
+    slices = slices + [type("S", (), {"info": (lambda self, d=d: d)})() for d in b8["slices"] if "add_instance" in str(d.get("name", ""))]
     st = stmt_scope_slices(work)
     slices = slices + [s.info() if hasattr(s, "info") else s for s in []]
     stobj = builder.cc(os.path.join(CDIR, "sb07.cpp"), includes=[work, os.path.join(X.REPO, "include")], cpp=True)
@@ -177,7 +202,7 @@ def build(tier, work, builder):
         "trusted_base": ["CBMC 6.11 C++ front end + SAT", "contracts/C07/sym07.cpp: std::map<string,int32_t> as a last-writer table over 4 names, fixed-capacity std::vector<symbol_t>, std::optional<uint32_t> as a flag + value"],
         "assumptions": ["induction over the length of the parent chain (meta-step): resolve on the parent frame is answered by its contract",
                         "which frame is on top of the builder's frame stack at each use site is decided by the grammar-driven callbacks (only the quantifier callbacks and expr_dot are under contract, c07_scope_*)",
-                        "process-qualified names (P.x with P's arguments substituted: expr_dot's rename/subst) are not under contract"],
+                        "process-qualified names: expr_dot's process branch and add_instance's mapping are under contract; type_t::rename / type_t::subst themselves (that substituting a binding rewrites every occurrence inside the type) are not"],
         "explanation": "",
     }
 
